@@ -285,13 +285,42 @@ func runC04(r *an.Run) {
 		"every DeriveStateHintObfuscator call passes the initiator's payment base point first: (Local, Remote) only below IsInitiator, (Remote, Local) only below !IsInitiator",
 		"the breach is recognised by de-obfuscating the state number; a swapped order hides every revoked state", 4,
 		func(o *an.Obl) {
-			n := 0
+			n, nFund := 0, 0
+			defer func() {
+				if nFund != 4 {
+					o.FailAt("obfuscator#funding-sites", "", "expected the 4 funding-time construction sites in lnwallet/wallet.go, found %d", nFund)
+				}
+			}()
 			for _, f := range r.Wide().Funcs(false) {
 				for _, s := range f.Calls(an.CalleeIs(lw+"DeriveStateHintObfuscator"), false) {
 					if strings.HasSuffix(f.Filename(), "lnwallet/wallet.go") {
-						// funding flow: the role is fixed by the code path
-						// (initiator / responder / dual-funder key order)
-						o.Site("funding-time site (tabled): %s", s.String())
+						// funding flow: the role is fixed by the code path: the
+						// funder continues in handleChanPointReady, the fundee
+						// signs in handleSingleFunderSigs; a dual-funded channel
+						// orders the two keys by their serialisation
+						a := f.ArgCanon(s)
+						ours := strings.Contains(a[0], "ourContribution") && strings.Contains(a[1], "theirContribution")
+						theirs := strings.Contains(a[0], "theirContribution") && strings.Contains(a[1], "ourContribution")
+						o.Site("funding-time site %s: (%s, %s)", f.Root().ID, a[0], a[1])
+						nFund++
+						switch f.Root().ID {
+						case lw + "LightningWallet.handleChanPointReady":
+							single, _ := f.Guarded(s, an.Truth(an.CallNamed("IsSingleFunder", nil), true, ""))
+							lower, _ := f.Guarded(s, an.Cmp(an.CallTo("bytes.Compare", nil), an.EQ, canonTerm(`^-1$`), ""))
+							switch {
+							case ours && (single || lower):
+							case theirs && !single && !lower:
+								guarded(o, f, s, an.Truth(an.CallNamed("IsSingleFunder", nil), false, "dual funder"))
+							default:
+								o.FailAt(f.Root().ID+"#obfuscator-order", s.Where(), "the funder derives the obfuscator from (%s, %s) here; expected its own base point first (single funder, or the lower key of a dual-funded channel)", a[0], a[1])
+							}
+						case lw + "LightningWallet.handleSingleFunderSigs":
+							if !theirs {
+								o.FailAt(f.Root().ID+"#obfuscator-order", s.Where(), "the fundee derives the obfuscator from (%s, %s); expected the funder's (their) base point first", a[0], a[1])
+							}
+						default:
+							o.FailAt(f.Root().ID+"#obfuscator-site", s.Where(), "%s derives a state hint obfuscator; the funding-time sites are tabled", f.Root().ID)
+						}
 						continue
 					}
 					n++
